@@ -154,15 +154,26 @@ class TreeSpec(Spec):
                         atoms.append({'sig': 'split:root', 'msg': 'split_modpath(%r) = %r' % (os.path.relpath(got, root), (dp, rel))})
                 except Exception as ex:
                     atoms.append({'sig': 'roundtrip:raises:' + type(ex).__name__, 'msg': '%s: %r' % (nm, ex)})
+                targets = []
                 if got.endswith('.py') and not nm.endswith('__main__') and nm.count('.') <= 1:
+                    targets.append(got)
+                elif os.path.isdir(got) and '__main__' not in nm and nm.count('.') <= 1:
+                    # a package: by its directory and by its __init__.py file - both are "the module of that name"
+                    targets += [got, os.path.join(got, '__init__.py')]
+                for target in targets:
                     before = list(sys.path)
                     top = nm.split('.')[0]
                     try:
-                        m = utils.import_module_from_path(got)
+                        m = utils.import_module_from_path(target)
+                        if sys.modules.get(nm) is not m:
+                            atoms.append({'sig': 'import:not-the-module-in-sys.modules',
+                                          'msg': 'import by path of %r (%s): returned %r, sys.modules[%r] is %r' % (
+                                              os.path.relpath(target, root), nm, m, nm, sys.modules.get(nm))})
                         if m.__name__ != nm:
                             atoms.append({'sig': 'import:module-name', 'msg': 'import by path of %r gives %r' % (nm, m.__name__)})
                         mf = getattr(m, '__file__', None)
-                        if not mf or os.path.realpath(mf) != os.path.realpath(got):
+                        expf = got if got.endswith('.py') else os.path.join(got, '__init__.py')
+                        if not mf or os.path.realpath(mf) != os.path.realpath(expf):
                             atoms.append({'sig': 'import:other-file', 'msg': '%r imported from %r' % (nm, mf)})
                     except Exception as ex:
                         atoms.append({'sig': 'import:raises:' + type(ex).__name__, 'msg': '%s: %r' % (nm, ex)})
